@@ -39,6 +39,8 @@ def base_configs(tier):
         dict(base, sym=['spikes'], label='', factor=0.5, wm='diag', first_factor=2.0, optional={'pc_features': 'no'}),
         dict(base, sym=[], label='probe01', factor=1.0, wm='I', colvec=True,
              positions=[[0.0, 0.0], [20.0, 0.0], [0.0, 20.0]]),      # distance ties
+        dict(base, sym=[], label='', factor=1.0, wm='I', optional={'pc_features': 'no'},
+             positions=[[0.0, 0.0], [3.0, 3.0], [0.0, 5.0]]),        # L1 and Euclidean rankings differ
     ]
     if not quick:
         out += [
